@@ -57,6 +57,10 @@ SidecarsFor(ev) == {[dir |-> Prefix(ev.dir, k), ents |-> Restrict(ev.ents, S), s
                        k \in 0..Len(ev.dir), S \in SUBSET (DOMAIN ev.ents), C \in (SUBSET Cols) \ {{}}}
 Universe(sh) == UNION {SidecarsFor(ev) : ev \in EventsOf(sh)}
 
+\* shape-indexed tables; constant-level, so TLC evaluates them once
+EventsTab == [sh \in Shapes |-> EventsOf(sh)]
+UniverseTab == [sh \in Shapes |-> Universe(sh)]
+
 \* decoys: an excluded directory holds a sidecar and (one level down) an events file that WOULD take part
 \* if the directory were not excluded; "othersuffix" puts a same-named beh sidecar/data file next to real ones
 DecoyFiles(d) ==
@@ -68,7 +72,7 @@ DecoyFiles(d) ==
               [dir |-> <<"sub-01">>, ents |-> EvFile(1, 0, 1, 1).ents, suffix |-> "beh", ext |-> ".tsv", cols |-> {}]}
         ELSE {})
 
-AllFiles == EventsOf(shape) \cup scs \cup DecoyFiles(decoy)
+AllFiles == EventsTab[shape] \cup scs \cup DecoyFiles(decoy)
 
 ----------------------------------------------------------------------------
 \* what the property says, over an arbitrary file set F
@@ -127,18 +131,22 @@ Sidecars(F) == {f \in Group(F, "events") : IsSidecar(f)}
 
 ----------------------------------------------------------------------------
 \* generator
-BidsOK(S) == AtMostOnePerDir(EventsOf(shape) \cup S)
+\* two sidecars of one directory that both apply to some events file break the BIDS rule
+\* (pairwise form of AtMostOnePerDir, cheap enough for the generator; GuardExact states the equivalence)
+Conflict(s, t) == /\ s.dir = t.dir
+                  /\ \E ev \in EventsTab[shape] : Applicable(s, ev) /\ Applicable(t, ev)
+NoConflict(S) == \A s, t \in S : s # t => ~Conflict(s, t)
 
 Init == /\ shape \in Shapes
         /\ scs = {}
         /\ decoy \in SUBSET DecoyKinds
         /\ DecoyRule(shape, decoy)
 
-AddSidecar == \E s \in Universe(shape) \ scs :
-                /\ Cardinality(scs) < MaxSC
-                /\ ENFORCE_BIDS => BidsOK(scs \cup {s})
-                /\ scs' = scs \cup {s}
-                /\ UNCHANGED <<shape, decoy>>
+AddSidecar == /\ Cardinality(scs) < MaxSC
+              /\ \E s \in UniverseTab[shape] \ scs :
+                   /\ ENFORCE_BIDS => \A t \in scs : ~Conflict(s, t)
+                   /\ scs' = scs \cup {s}
+                   /\ UNCHANGED <<shape, decoy>>
 Next == AddSidecar
 Spec == Init /\ [][Next]_vars
 
@@ -150,6 +158,9 @@ TypeOK == /\ shape \in Shapes /\ decoy \subseteq DecoyKinds
 
 \* BIDS rule kept by the generator => the chain (hence the merge) is a function of the tree: determinism
 Deterministic == AtMostOnePerDir(AllFiles)
+
+\* the generator's pairwise guard is exactly the BIDS rule (checked with ENFORCE_BIDS = FALSE as well)
+GuardExact == NoConflict(scs) <=> AtMostOnePerDir(AllFiles)
 
 \* the chain holds exactly the applicable sidecars of the group, strictly root -> leaf
 ChainExact == \A f \in Targets(AllFiles) \cup Sidecars(AllFiles) :
